@@ -12,6 +12,10 @@ from hypothesis import strategies as st
 
 from vp.core import Case, Sub, V, VERIF, REPO
 from vp import history as H
+import warnings
+
+# plain unittest.TestCase tests run against testtools results, which have no addDuration (Python 3.12 only warns)
+warnings.filterwarnings("ignore", message="TestResult has no addDuration method")
 
 PROPERTY = "C04"
 RULE = ("(1) Model-based histories of outcomes over 0..4 tests with startTestRun/stopTestRun boundaries, stop() and "
@@ -24,7 +28,15 @@ RULE = ("(1) Model-based histories of outcomes over 0..4 tests with startTestRun
         "that are not started tests (as unittest reports setUpClass/setUpModule failures) and runs in which no test "
         "is started at all. (3) generated suites of real TestCases run by "
         "unittest.TestSuite / TestToolsTestRunner / testtools.run.main (in-process, exit status derived from "
-        "SystemExit.code as the OS would; real subprocesses in the thorough tier). Non-trivial: >= 2 tests with a "
+        "SystemExit.code as the OS would; real subprocesses in the thorough tier). (4) on and off are spelled in every way "
+        "a caller does (True / 1; False / None / 0 / argument omitted) and the tests reported about are TestCases, "
+        "PlaceHolders and ErrorHolders; two exhaustive grids, run at every seed, cover per base: failfast switched "
+        "on / off / on again right before the one outcome that decides (each failing kind, add*() and native status() "
+        "for the stream adapter, with and without an explicit startTestRun, with and without any earlier read of the "
+        "adapter), a change between two tests and one that must survive startTestRun; and per runner: each failing "
+        "kind raised by a testtools and by a plain unittest TestCase (which reports to the result directly, so that "
+        "the result's own failfast branch decides) in second position of three tests. Only truth values of "
+        "wasSuccessful()/shouldStop are compared; the duration in 'Ran N tests in Xs' is not looked at. Non-trivial: >= 2 tests with a "
         "bad outcome not in first position, or a second startTestRun, or stack depth >= 2; distinct = distinct spec.")
 ASSUMPTIONS = [
     "wasSuccessful() of ExtendedToStreamDecorator after an unexpected success is not asserted (sentence 1 names TestResult-family objects)",
@@ -32,11 +44,25 @@ ASSUMPTIONS = [
     "plain TestResultDecorator/Tagger/ThreadsafeForwardingResult takes effect through that decorator",
     "startTestRun resets shouldStop (documented: resets the result to a pristine condition)",
     "detail texts contain no lines that look like TextTestResult section headers",
+    "a change of failfast takes effect at once, for the very next outcome, not at the next startTestRun (the statement "
+    "says 'set before or after wrapping' and is silent about a change in the middle of a run; an implementation that "
+    "reads the flag once per run would be reported as stop:*-early / *-missing by the failfast op and by failfast_grid)",
+    "a plain unittest.TestCase (suites_grid, std_* kinds) with failfast on is only run against objects that act on the "
+    "flag themselves (TestResult, TextTestResult, MultiTestResult, ExtendedToOriginalDecorator, a forwarder whose target "
+    "has it): TestResultDecorator / Tagger / ThreadsafeForwardingResult keep an assigned failfast as a plain attribute",
 ]
 
 BASES = ["TestResult", "TextTestResult", "Multi", "TSFR", "ETSD", "ETOD-py26", "Multi-py26", "ETOD-py27", "Multi-hetero"]
 WRAPS = ["ETOD", "Decorator", "Tagger"]
-HIST = H.s_history(max_tests=4, with_control=False, with_tags=False, with_time=False, max_ops=22)
+HIST = H.s_history(max_tests=4, with_control=False, with_tags=False, with_time=False, max_ops=22,
+                   test_kinds=("case", "case", "case", "placeholder", "errorholder"))
+# "failfast on or off": what counts is the truth value.  None is what TestToolsTestRunner passes when it was not given
+# the argument, 0 / 1 are what an option parser or a C-minded caller hands over.
+FF_ON = (True, 1)
+FF_OFF = (False, None, 0)
+S_FF_ON = st.sampled_from([True, True, 1])
+S_FF_OFF = st.sampled_from([False, False, None, 0])
+S_FF_ANY = st.sampled_from([True, False, 1, None, 0, True, False])
 
 
 @st.composite
@@ -65,25 +91,29 @@ def s_case(draw):
             ops.append({"op": "stop", "layer": draw(st.integers(0, len(wraps))),
                         "child": draw(st.integers(0, 2)) if base == "Multi-hetero" and draw(st.booleans()) else None})
         if op["op"] in ("stopTest", "startTestRun") and toggles and draw(st.integers(0, 3)) == 0:
-            ops.append({"op": "failfast", "value": draw(st.booleans())})
+            ops.append({"op": "failfast", "value": draw(S_FF_ANY)})
         if op["op"] == "stopTest" and base == "TSFR" and ff in ("off", "before") and draw(st.integers(0, 3)) == 0:
             # another worker's forwarder reports a whole test to the shared target
             ops.append({"op": "sibling_test", "kind": draw(H.KIND)})
-    return {"base": base, "wraps": wraps, "failfast": ff, "ops": ops}
+    spec = {"base": base, "wraps": wraps, "failfast": ff, "ops": ops, "ff_on": draw(S_FF_ON), "ff_off": draw(S_FF_OFF)}
+    if base == "ETSD" and draw(st.booleans()):
+        spec["late_first_read"] = True       # nothing is read from the adapter before the first call reaches it
+    return spec
 
 
 def build(spec):
     """-> (outer, underlying results list)"""
     import testtools
     from testtools.testresult import real
-    ff_inner = spec["failfast"] == "before"
+    on, off = spec.get("ff_on", True), spec.get("ff_off", False)
+    ff_inner = on if spec["failfast"] == "before" else off
     under = []
     made = []
     siblings = []
 
     def TR():
         # "before2": only the second constituent was created with failfast
-        r = testtools.TestResult(failfast=ff_inner or (spec["failfast"] == "before2" and len(made) == 1))
+        r = testtools.TestResult(failfast=on if spec["failfast"] == "before2" and len(made) == 1 else ff_inner)
         made.append(r)
         under.append(r)
         return r
@@ -134,9 +164,9 @@ def build(spec):
             r = real.Tagger(r, {"x"}, set())
         layers.insert(0, r)
     if spec["failfast"] == "after":
-        r.failfast = True
+        r.failfast = on
     if spec["failfast"] == "after2":
-        made[1].failfast = True        # asked of the second constituent only, once it is wrapped
+        made[1].failfast = on        # asked of the second constituent only, once it is wrapped
     build.siblings = siblings
     build.layers = layers          # outermost first
     return r, under, text
@@ -167,7 +197,7 @@ def run_case(spec):
     def check(step):
         n_before[0] = len(vs)
         try:
-            ok = outer.wasSuccessful()
+            ok = bool(outer.wasSuccessful())     # the truth value is what callers use (sys.exit(not ...), if ...)
         except Exception as e:
             vs.append(V("verdict", "wasSuccessful-raises-" + spec["base"], "wasSuccessful() raised %r after %s" % (e, step)))
             return
@@ -210,12 +240,15 @@ def run_case(spec):
         if spec["base"] != "ETSD" and not direct and len(vs) == n_before[0]:
             for who, obj in [("underlying", u) for u in under] + [("sibling-forwarder", sib) for sib in getattr(build, "siblings", [])] + \
                     [("layer-%d" % i, l) for i, l in enumerate(getattr(build, "layers", [])[1:], 1)]:
-                if obj.wasSuccessful() != (not bad):
+                if bool(obj.wasSuccessful()) != (not bad):
                     vs.append(V("verdict", "%s-%s" % (who.split("-")[0], spec["base"]), "%s says wasSuccessful() %r after %s on %s, failing outcome reported: %r" % (
                         who, obj.wasSuccessful(), step, tag, bad)))
                     break
 
-    check("construction")
+    if not spec.get("late_first_read"):
+        # (wasSuccessful() starts a not yet started ExtendedToStreamDecorator: with late_first_read the first call of
+        # the history meets an adapter that nothing has touched)
+        check("construction")
     for n, op in enumerate(spec["ops"]):
         k = op["op"]
         if k == "startTestRun":
@@ -230,7 +263,11 @@ def run_case(spec):
             cur = H.make_test(op["i"], op.get("tk", "case"))
             driver.startTest(cur)
             ntests += 1
-        elif k == "outcome":
+        elif k in ("outcome", "loose_outcome"):
+            if k == "loose_outcome":
+                # a problem reported about something that is not a started test (what unittest does with its
+                # _ErrorHolder when setUpClass / setUpModule raises): no startTest before, no stopTest after
+                cur = H.make_test(800 + n, op.get("tk", "placeholder"))
             if op.get("via_status"):
                 status = {"success": "success", "error": "fail", "failure": "fail", "skip": "skip", "xfail": "xfail", "uxsuccess": "uxsuccess"}[op["kind"]]
                 if op["via_status"] == "positional":
@@ -259,7 +296,7 @@ def run_case(spec):
             stopped = True
         elif k == "failfast":
             outer.failfast = op["value"]
-            ff = op["value"]
+            ff = bool(op["value"])
         elif k == "sibling_test":
             sib = build.siblings[0]
             t2 = H.make_test(90 + n)
@@ -273,7 +310,7 @@ def run_case(spec):
         else:
             continue
         before = len(vs)
-        check("%s#%d" % (k if k != "outcome" else "outcome:" + op["kind"], n))
+        check("%s#%d" % (k if not k.endswith("outcome") else k + ":" + op["kind"], n))
         if len(vs) > before:
             break
     nt = (ntests >= 2 and bad_pos is not None and bad_pos > 1) or restarts >= 2 or len(spec["wraps"]) >= 1 and spec["base"] in ("Multi", "TSFR") or len(spec["wraps"]) >= 2
@@ -282,8 +319,101 @@ def run_case(spec):
                          "stop-below-outer" if any(o["op"] == "stop" and o.get("layer") for o in spec["ops"]) else "",
                          "failfast-toggled" if any(o["op"] == "failfast" for o in spec["ops"]) else "",
                          "sibling-reports" if any(o["op"] == "sibling_test" for o in spec["ops"]) else "",
-                         "native-status" if any(o.get("via_status") for o in spec["ops"]) else ""],
+                         "native-status" if any(o.get("via_status") for o in spec["ops"]) else "",
+                         "holder-test" if any(o.get("tk", "case") != "case" for o in spec["ops"]) else "",
+                         "unbracketed-outcome" if any(o["op"] == "loose_outcome" for o in spec["ops"]) else "",
+                         "failfast-spelled-1/None/0" if any(v is not True and v is not False for v in
+                                                            [spec.get("ff_on", True), spec.get("ff_off", False)] +
+                                                            [o["value"] for o in spec["ops"] if o["op"] == "failfast"]) else "",
+                         "late-first-read" if spec.get("late_first_read") else ""],
                 {"tests": ntests})
+
+
+# ---------------------------------------------------------------- directed grids (the same run_case, every seed)
+def _outcome(kind, native=None, form=None):
+    if kind == "skip":
+        payload = {"form": "reason", "reason": "r", "details": {}, "call": "pos"}
+    elif kind in ("uxsuccess", "success"):
+        payload = {"form": form or "none", "details": {}}
+    else:
+        payload = {"form": form or "details", "details": {}, "exc": "RuntimeError", "call": "pos"}
+    op = {"op": "outcome", "kind": kind, "marker": 1, "payload": payload}
+    if native:
+        op["via_status"] = native
+    return op
+
+
+def _one_test(kind, native=None, tk="case", form=None, i=0):
+    return [{"op": "startTest", "i": i, "tk": tk}, _outcome(kind, native, form), {"op": "stopTest"}]
+
+
+def grid_failfast():
+    """(a) failfast switched on / off / on again before the one outcome that decides, per base, per kind of outcome, per
+    way of reporting it to the stream adapter, with and without an explicit startTestRun; (b) every spelling of
+    on (True, 1) and off (False, None, 0), given at construction, after wrapping, or assigned later; (c) outcomes
+    reported about a PlaceHolder / ErrorHolder.  A random history shows each of these unmasked (no stop(), no earlier
+    latch, no later toggle) a handful of times per 2500 at best, and not at all for some bases at some seeds."""
+    for base in BASES:
+        natives = [None, "keyword", "positional"] if base == "ETSD" else [None]
+        lates = [False, True] if base == "ETSD" else [False]
+        # (a)
+        for start_ff in ("off", "after"):
+            for seq in ([False], [True], [True, False], [False, True], [True, False, True]):
+                for kind in ("error", "failure", "uxsuccess", "skip"):
+                    for native in natives:
+                        for started in (True, False):
+                            for late in lates:
+                                ops = [{"op": "startTestRun"}] if started else []
+                                ops += [{"op": "failfast", "value": v} for v in seq]
+                                ops += _one_test(kind, native)
+                                spec = {"base": base, "wraps": [], "failfast": start_ff, "ops": ops, "ff_on": True, "ff_off": False}
+                                if late:
+                                    spec["late_first_read"] = True
+                                yield spec
+        # a change between two tests of one run, and one made before the run starts that must survive startTestRun
+        for start_ff in ("off", "after"):
+            for kind in ("error", "failure", "uxsuccess"):
+                for native in natives:
+                    flip = {"op": "failfast", "value": start_ff == "off"}
+                    yield {"base": base, "wraps": [], "failfast": start_ff, "ff_on": True, "ff_off": False,
+                           "ops": [{"op": "startTestRun"}] + _one_test("success") + [flip] + _one_test(kind, native, i=1)}
+                    yield {"base": base, "wraps": [], "failfast": start_ff, "ff_on": True, "ff_off": False,
+                           "ops": [flip, {"op": "startTestRun"}] + _one_test(kind, native) + [{"op": "stopTestRun"}, {"op": "startTestRun"}] +
+                           _one_test(kind, native, i=1)}
+        # (b)
+        modes = ["after"]
+        if base not in ("ETSD", "ETOD-py26", "Multi-py26", "ETOD-py27"):
+            modes.append("before")
+        if base == "Multi":
+            modes += ["before2", "after2"]
+        for kind in ("error", "failure", "uxsuccess"):
+            for wraps in ([], ["Tagger"], ["ETOD", "Decorator"]) if base in ("TestResult", "Multi", "TSFR", "TextTestResult") else ([],):
+                for on in FF_ON:
+                    for mode in modes:
+                        yield {"base": base, "wraps": wraps, "failfast": mode, "ff_on": on, "ff_off": False,
+                               "ops": [{"op": "startTestRun"}] + _one_test("success") + _one_test(kind, i=1)}
+                    yield {"base": base, "wraps": wraps, "failfast": "off", "ff_on": True, "ff_off": False,
+                           "ops": [{"op": "startTestRun"}, {"op": "failfast", "value": on}] + _one_test(kind)}
+                for off in FF_OFF:
+                    yield {"base": base, "wraps": wraps, "failfast": "off", "ff_on": True, "ff_off": off,
+                           "ops": [{"op": "startTestRun"}] + _one_test(kind) + _one_test("success", i=1)}
+                    yield {"base": base, "wraps": wraps, "failfast": "after", "ff_on": True, "ff_off": off,
+                           "ops": [{"op": "startTestRun"}, {"op": "failfast", "value": off}] + _one_test(kind)}
+        # (c)
+        for tk in ("placeholder", "errorholder"):
+            for kind, form in (("uxsuccess", "none"), ("uxsuccess", "details"), ("error", "details"), ("error", "err"), ("failure", "err"),
+                               ("skip", None), ("xfail", "err"), ("success", "none")):
+                for ffm in ("off", "after"):
+                    yield {"base": base, "wraps": [], "failfast": ffm, "ff_on": True, "ff_off": False,
+                           "ops": [{"op": "startTestRun"}] + _one_test(kind, None, tk, form) + _one_test("success", i=1)}
+            # ... and reported outside any startTest/stopTest bracket, before the first test or between two
+            for kind, form in (("error", "err"), ("error", "details"), ("failure", "err")):
+                for ffm in ("off", "after"):
+                    loose = dict(_outcome(kind, None, form), op="loose_outcome", tk=tk)
+                    yield {"base": base, "wraps": [], "failfast": ffm, "ff_on": True, "ff_off": False,
+                           "ops": [{"op": "startTestRun"}, loose] + _one_test("success")}
+                    yield {"base": base, "wraps": [], "failfast": ffm, "ff_on": True, "ff_off": False,
+                           "ops": [{"op": "startTestRun"}] + _one_test("success") + [loose] + _one_test("success", i=1) + [{"op": "stopTestRun"}]}
 
 
 # ---------------------------------------------------------------- TextTestResult summary
@@ -300,7 +430,8 @@ def s_text(draw):
     if draw(st.integers(0, 7)) == 0:
         runs = [[] for _ in runs]          # nothing but such reports: no test is ever started
     return {"runs": runs, "holders": holders, "wraps": draw(st.lists(st.sampled_from(WRAPS), max_size=2)), "failfast": draw(st.booleans()),
-            "id_mod": draw(st.sampled_from([99, 99, 2, 1]))}
+            "id_mod": draw(st.sampled_from([99, 99, 2, 1])),
+            "keep_time": draw(st.booleans())}         # the last time() supplied is still in effect when the run is stopped
 
 
 def run_text(spec):
@@ -350,11 +481,14 @@ def run_text(spec):
                 driver.time(H.ts(op["t"]))
         in_test = False
         holders_due(len(ops) + 1)
-        driver.time(None)
+        if not spec.get("keep_time"):
+            driver.time(None)
         driver.stopTestRun()
         out = stream.getvalue()
         lines = out.split("\n")
-        m = re.search(r"^Ran (\d+) tests? in [0-9.]+s$", out, re.M)
+        # (the duration is the difference of two clock readings and may be negative when the wall clock is stepped
+        # back, or when the last time() supplied lies before the moment the run started; nothing is said about it)
+        m = re.search(r"^Ran (\d+) tests? in -?[0-9.]+s$", out, re.M)
         if not m:
             vs.append(V("text", "no-ran-line", "no 'Ran N tests' line in %r" % out[-300:]))
             continue
@@ -378,7 +512,7 @@ def run_text(spec):
                 sections.append((mm.group(1), mm.group(2)))
         if sorted(sections) != sorted(problems):
             vs.append(V("text", "sections", "sections %r, problems reported %r" % (sections, problems)))
-        if inner.wasSuccessful() != (not problems):
+        if bool(inner.wasSuccessful()) != (not problems):
             vs.append(V("text", "wasSuccessful", "wasSuccessful() %r with problems %r" % (inner.wasSuccessful(), problems)))
         total_problems += len(problems)
     nt = len(spec["runs"]) >= 2 or total_problems >= 2
@@ -400,10 +534,40 @@ def s_suite(draw):
         # sub-tests need a result with addSubTest at the outside (unittest probes for it); the pass-through
         # decorators do not have one
         spec["tests"] = [k if not k.startswith("subtest") else "success" for k in spec["tests"]]
+    # how "on" / "off" is spelled ("omit": the argument is not given at all, which is None inside TestToolsTestRunner)
+    spec["ff_raw"] = draw(S_FF_ON) if spec["failfast"] else draw(st.sampled_from([False, False, None, 0, "omit"]))
     return spec
 
 
-SUITE_BAD = tuple(H.BAD) + ("subtest_fail",)
+# std_*: the same three bad outcomes from a plain unittest.TestCase, which reports straight to the result it was given
+# (no ExtendedToOriginalDecorator in front that would call stop() itself)
+PLAIN_BAD = tuple(H.BAD) + ("std_failure", "std_error", "std_uxsuccess")
+SUITE_BAD = PLAIN_BAD + ("subtest_fail",)
+
+
+def grid_suites():
+    """Every spelling of failfast on/off x every runner x each bad outcome (from a testtools and from a stdlib TestCase)
+    in second position of three tests."""
+    for bad in PLAIN_BAD:
+        tests = ["success", bad, "success"]
+        std = bad.startswith("std_")
+        for raw in FF_OFF + FF_ON:
+            for runner in ("suite+TestResult", "suite+Multi", "suite+TSFR"):
+                for mode in ("after", "before"):
+                    if std and raw and mode == "after" and runner == "suite+TSFR":
+                        # ASSUMPTIONS: a flag assigned to a forwarder / pass-through decorator is a plain attribute that
+                        # only the ExtendedToOriginalDecorator of testtools.TestCase.run reads; a stdlib TestCase has none
+                        continue
+                    yield {"tests": tests, "failfast": bool(raw), "ff_raw": raw, "ff_mode": mode, "runner": runner, "wraps": []}
+            yield {"tests": tests, "failfast": bool(raw), "ff_raw": raw, "runner": "TestToolsTestRunner", "wraps": []}
+        yield {"tests": tests, "failfast": False, "ff_raw": "omit", "runner": "TestToolsTestRunner", "wraps": []}
+        for ff in (False, True):
+            yield {"tests": tests, "failfast": ff, "runner": "run.main", "wraps": []}
+        for wrap in WRAPS:
+            for ff in (False, True):
+                if std and ff and wrap != "ETOD":
+                    continue
+                yield {"tests": tests, "failfast": ff, "runner": "suite+TestResult", "wraps": [wrap]}
 
 
 def make_tests(kinds, ran, result_holder):
@@ -431,7 +595,16 @@ def make_tests(kinds, ran, result_holder):
             if k == "stop":
                 result_holder[0].stop()
         name = "test_%02d_%s" % (i, k)
-        if k.startswith("subtest"):
+        if k.startswith("std_"):
+            def pbody(self, i=i, k=k):
+                ran.append(i)
+                if k == "std_failure":
+                    self.fail("MARK-fail-%d" % i)
+                if k == "std_error":
+                    raise RuntimeError("MARK-error-%d" % i)
+            setattr(S, name, unittest.expectedFailure(pbody) if k == "std_uxsuccess" else pbody)
+            tests.append((S, name))
+        elif k.startswith("subtest"):
             def sbody(self, i=i, k=k):
                 ran.append(i)
                 with self.subTest(part=1):
@@ -479,27 +652,30 @@ def run_suite(spec):
     alt_ran = []
     for i, k in enumerate(kinds):
         alt_ran.append(i)
-        if k == "stop" or (ff and k in H.BAD):
+        if k == "stop" or (ff and k in PLAIN_BAD):
             break
-    alt_good = not any(kinds[i] in H.BAD for i in alt_ran)
+    alt_good = not any(kinds[i] in PLAIN_BAD for i in alt_ran)
     runner = spec["runner"]
     if runner.startswith("suite+"):
         base = {"suite+TestResult": "TestResult", "suite+Multi": "Multi", "suite+TSFR": "TSFR"}[runner]
-        outer, under, _ = build({"base": base, "wraps": spec["wraps"], "failfast": "after" if ff else "off"})
+        raw = spec.get("ff_raw", ff)
+        raw = None if raw == "omit" else raw
+        outer, under, _ = build({"base": base, "wraps": spec["wraps"], "failfast": spec.get("ff_mode", "after") if ff else "off",
+                                 "ff_on": raw if ff else True, "ff_off": False if ff else raw})
         holder[0] = outer
         suite = unittest.TestSuite([c(n) for c, n in names])
         suite.run(outer)
-        subtest_only = (not good) and not any(kinds[i] in H.BAD for i in ran)     # the only failing thing executed is a sub-test
-        if base in ("Multi", "TSFR") and subtest_only and outer.wasSuccessful() and ran in (want_ran, alt_ran):
+        subtest_only = (not good) and not any(kinds[i] in PLAIN_BAD for i in ran)     # the only failing thing executed is a sub-test
+        if base in ("Multi", "TSFR") and subtest_only and bool(outer.wasSuccessful()) and ran in (want_ran, alt_ran):
             vs.append(V("subtest", "not-forwarded-" + base, "a failing sub-test of a stdlib TestCase reported through %s is not counted: "
                         "wasSuccessful() %r, tests executed %r (kinds %r, failfast %r)" % (base, outer.wasSuccessful(), ran, kinds, ff)))
             return Case(vs, True, ["runner=" + runner, "subtest-known-finding"], {"ran": ran})
-        if outer.wasSuccessful() != good:
+        if bool(outer.wasSuccessful()) != good:
             vs.append(V("suite", "verdict-" + base, "wasSuccessful() %r after outcomes %r" % (outer.wasSuccessful(), [kinds[i] for i in ran])))
         tag = base
     elif runner == "TestToolsTestRunner":
         out = io.StringIO()
-        r = ttrun.TestToolsTestRunner(stdout=out, failfast=ff)
+        r = ttrun.TestToolsTestRunner(stdout=out, **({} if spec.get("ff_raw") == "omit" else {"failfast": spec.get("ff_raw", ff)}))
         suite = unittest.TestSuite([c(n) for c, n in names])
 
         class Spy(unittest.TestSuite):
@@ -507,7 +683,7 @@ def run_suite(spec):
                 holder[0] = result
                 return super().run(result, debug)
         res = r.run(Spy([suite]))
-        if res.wasSuccessful() != good:
+        if bool(res.wasSuccessful()) != good:
             vs.append(V("suite", "verdict-runner", "runner result wasSuccessful() %r after %r" % (res.wasSuccessful(), [kinds[i] for i in ran])))
         txt = out.getvalue()
         if ("\nOK\n" in txt) != good:
@@ -591,8 +767,10 @@ def subchecks(tier):
     q = tier == "quick"
     return [
         Sub("verdict_stop_histories", run_case, s_case(), 2500 if q else 150000),
+        Sub("failfast_grid", run_case, enum=grid_failfast, enum_complete=True),
         Sub("text_summary", run_text, s_text(), 600 if q else 40000),
         Sub("suites_and_runner", run_suite, s_suite(), 600 if q else 40000),
+        Sub("suites_grid", run_suite, enum=grid_suites, enum_complete=True),
         Sub("exit_status_byte_boundary", run_suite, custom=custom_counts),
         Sub("subprocess_exit_status", run_suite, custom=custom_subprocess),
     ]
